@@ -71,6 +71,13 @@ def size_variants(o, idx, rng=None, full=False):
     if rng is not None:
         c.append(rng.randint(lo, min(hi, 70000)))
         c.append(rng.randint(lo, hi))
+    # declared end just beyond / exactly at the end of each enclosing region (padding then crosses that end)
+    reg = next((o.regions[r] for i, r in o.sizefields if i == idx), None)
+    if reg is not None and reg.max is not None:
+        for e in o.regions:
+            if e is not reg and e.max is not None and e.start <= reg.start and e.start + e.max >= reg.start + reg.max:
+                slack = (e.start + e.max) - (reg.start + reg.max)
+                c += [old + slack + 1, old + slack + 2, old + slack + 9, old + slack]
     seen, out = set(), []
     for v in c:
         if lo <= v <= hi and v != old and v not in seen:
